@@ -72,7 +72,11 @@ func smoke(args []string) int {
 		fmt.Printf("h%d tx%d: %v %.100s\n", res.Height, i, rc.Status, string(rc.Ret))
 	}
 	// one child succeeds
-	res, err = w.Exec(w.IBTPTx(harness.User(0), func() *pb.IBTP { ib := harness.MkIBTP(src, b1, 1, pb.IBTP_RECEIPT_SUCCESS, 0); ib.Group = &pb.StringUint64Map{Keys: keys, Vals: vals}; return ib }(), []byte("p")))
+	res, err = w.Exec(w.IBTPTx(harness.User(0), func() *pb.IBTP {
+		ib := harness.MkIBTP(src, b1, 1, pb.IBTP_RECEIPT_SUCCESS, 0)
+		ib.Group = &pb.StringUint64Map{Keys: keys, Vals: vals}
+		return ib
+	}(), []byte("p")))
 	if err == nil {
 		fmt.Printf("h%d receipt: %v %.100s; notifications %v\n", res.Height, res.Receipts[0].Status, string(res.Receipts[0].Ret), res.Meta.TimeoutCounter)
 	}
